@@ -99,7 +99,7 @@ REG["C14"] = {
     "assumptions": ["the selection expression itself (vec![..].into_iter().filter(is_some).min()) is inside execute_all, out of reach: the harness applies "
                     "Option::min to the extracted struct, which is what Iterator::min folds with; anchor checked textually",
                     "Kani/CBMC; rustc's expansion of #[derive(PartialOrd, Ord)] is what is proved (the struct text incl. attributes is copied verbatim)"],
-    "not_decided": ["that the process is really aborted after that long (subprocess + kernel): BOUNDED stand-in only — verif-replay c14 runs seven real bash executions through StatefulExecutor + BashRunner (per-test 300 ms vs document 5 s and the reverse, each alone, document timeout 0, no timeout reached, both generous) and checks which limit is reported (Index / Total / none)", "skipped-vs-passed accounting after a timeout (bin/commands/test.rs)",
+    "not_decided": ["that the process is really aborted after that long (subprocess + kernel): BOUNDED stand-in only — verif-replay c14 runs 18 real bash executions through StatefulExecutor + BashRunner (per-test 300 ms vs document 5 s and the reverse, each alone, document timeout 0 with and without a per-test limit, no timeout reached, both generous; the slow test case first or second, always followed by one more) and checks which limit is reported (Index / Total / none), that the outputs stop at the aborted test case and that the 3 s command is cut off within 2.5 s", "skipped-vs-passed accounting after a timeout (bin/commands/test.rs)",
                     "the arithmetic of std::time::Instant (opaque shim: now/add/duration_since carry no contract)", "the value of the default limit"],
     "callsites": [("src/executors/stateful_executor.rs", ".into_iter().filter(|item| item.is_some()).min()")],
 }
@@ -313,7 +313,7 @@ REG["C15"] = {
     "not_decided": ["that a document with such an exit code is reported as skipped as a whole, and nothing else is (executors: interleaved with process spawning; reporting: src/bin/commands/test.rs): "
                     "BOUNDED stand-in for the executors only — verif-replay c15 N runs real bash processes: every sequence of up to N test cases with exit codes from {0, 1, 80, 81}, skip code unset "
                     "or configured 81, through StatefulExecutor + BashRunner and through BashScriptExecutor, must give ExecutionError::Skipped(index of the first test case that exits with its skip "
-                    "code) exactly when there is one, else every test case its own exit code (quick N=2: 80 executions, thorough N=3: 336)",
+                    "code) exactly when there is one, else every test case its own exit code; the same sequences through BashScriptExecutor followed by a test case that runs `exit 3` (ends the shared shell) and one more: still skipped at that index, and not skipped when no test case exits with the skip code; and through StatefulExecutor under a document-wide skip code 1 that one test case overrides: each test case judged by its own code (quick N=2: 192 executions, thorough N=3: see evidence)",
                     "the accounting in commands/test.rs (every test case of the document skipped, none failed or passed, other documents unaffected, skipped after a timeout)"],
 }
 
